@@ -289,3 +289,9 @@ func chOr1(ch int) int {
 	}
 	return ch
 }
+
+// histDep reports a failure that the sweep observed on the real code but that does not
+// show when the value is converted again on its own: the result depends on earlier calls.
+func histDep(name, msg string) F {
+	return F{Key: name + "/history-dependent", Msg: msg + " (the implementation's result depends on conversions made before)"}
+}
